@@ -11,7 +11,7 @@ Quick == Tier = "quick"
 
 \* one representative per character class
 ShortAlpha == {"0", "1", "a", "F", "g", "-", ":", ".", "T", "Z", "+", " ", "\t", "é", "€", "😀", "_"}
-ReplAlpha == ShortAlpha \cup {"9", "f", "A", "x", "t", "z", "3", "(", "s", "N"}
+ReplAlpha == ShortAlpha \cup {"9", "f", "A", "x", "t", "z", "3", "(", "s", "N"} \cup Wide
 LevelGAlpha == {"d", "e", "b", "g", "u", "D", "3", " ", "\t", "é"}
 PathGAlpha == {"a", "é", "1", "_", ":", "-", "€"}
 HexAlpha == HexSet \cup {"g", "G"}
@@ -56,6 +56,14 @@ NearMissBases ==
     \cup (IF Quick THEN {t \in TpBases : t[54] \in {"0"}} ELSE TpBases)
     \cup KindBases \cup PathBases \cup LevelBases
 AllBases == TsBases \cup TidBases \cup SidBases \cup TpBases
+FlagBases == {<<"0", "0">>, <<"f", "f">>, <<"0", "1">>, <<"A", "9">>}
+\* the fixed-width grammars: byte-length-preserving multi-byte substitutions (WideMutants)
+FixedWidthBases ==
+    (IF Quick THEN {t \in TsBases : Len(t) \in {20, 22, 30}} ELSE TsBases)
+    \cup (IF Quick THEN {t \in TidBases : t[1] \in {"4", "0"} /\ t[32] \in {"6", "1"}} ELSE TidBases)
+    \cup (IF Quick THEN {t \in SidBases : t[3] \in {"f", "0"} /\ t[16] \in {"7", "1"}} ELSE SidBases)
+    \cup (IF Quick THEN {t \in TpBases : t[54] \in {"0"}} ELSE TpBases)
+    \cup FlagBases
 
 \* level words: every prefix, in several cases, with suffixes and padding
 Lo(c) == IF c \in UpperSet THEN Lower[CHOOSE i \in 1..26 : UpperS[i] = c] ELSE c
@@ -112,7 +120,12 @@ ASSUME Emit => \A k \in 1..(IF Quick THEN 4 ELSE 5) : \A t \in [1..k -> LevelGAl
 ASSUME Emit => \A k \in 1..(IF Quick THEN 5 ELSE 6) : \A t \in [1..k -> PathGAlpha] : CaseLine(t)
 ASSUME Emit => \A t \in [1..2 -> HexAlpha] : CaseLine(t)
 ASSUME Emit => \A b \in NearMissBases : \A t \in Mutants(b, ReplAlpha) : CaseLine(t)
+ASSUME Emit => \A b \in FixedWidthBases : \A t \in WideMutants(b, Wide) : CaseLine(t)
+ASSUME Emit => \A c \in Wide : CaseLine(<<c>>) /\ CaseLine(<<c, c>>) /\ CaseLine(<<"a", c>>) /\ CaseLine(<<"a", ":", ":", c>>)
 ASSUME Emit => \A t \in AllBases \cup LevelTexts : CaseLine(t)
+\* every byte-length-preserving substitution is rejected by every fixed-width grammar
+ASSUME \A b \in FixedWidthBases : \A t \in WideMutants(b, Wide) :
+    LET v == Verdicts(t) IN v.ts.v = "r" /\ v.tid.v = "r" /\ v.sid.v = "r" /\ v.fl.v = "r" /\ v.tp.v = "r"
 ASSUME Emit => \A x \in QuickInstants : FmtLine(x)
 \* thorough: the first and the last nanosecond of every month of every year
 ASSUME (Emit /\ ~Quick) => \A y \in 1970..9999, m \in 1..12 :
